@@ -307,7 +307,7 @@ def run(ctx, rep):
         for c in kb.calls:
             if c.name.endswith('TcpStream::connect') and is_user_call(c):
                 ncon += 1
-                f_ = canon(kb.pexpr_operand(c.args[0]), 0, 3)
+                f_ = canon(kb.pexpr_operand(c.args[0], 0, frozenset(), (c.bb, "t")), 0, 3)
                 ok = f_ == 'self.config.server_address'
                 rep.ob('R13.m', ctx.user_fn_of(df), 'connect(%s)' % f_[:60], ok, c.where(), None if ok else
                        'a connection is opened to `%s`, not to the configured server address: the TLS session is attempted on a socket to the client\'s own local address and can never be established' % f_[:90])
